@@ -63,6 +63,9 @@ func checkAll(p *Pool) []string {
 			}
 		}
 	}
+	for i, d := range p.defBuilders {
+		out = append(out, vinv.CheckBuilderRefs(d, fmt.Sprintf("default builder #%d held from Bus.CANIDBuilder()", i))...)
+	}
 	for _, e := range p.ents {
 		e := e
 		out = append(out, vinv.Guard("c04-lookup-panics", func() []string { return checkEnt(p, e) })...)
